@@ -1048,15 +1048,16 @@ def _rechunk_params(draw, st, vals):
     for s in v.shape:
         s1 = max(s, 1)
         ch.append(min(s1, draw(st.sampled_from([1, 2, 3, s1, (s1 + 1) // 2, draw(st.integers(1, s1))]))))
-    return {"chunks": ch, "method": draw(st.booleans())}
+    return {"chunks": ch, "method": draw(st.booleans()), "allow_irregular": draw(st.sampled_from([True, True, False]))}
 
 
 def _rechunk_cub(xp, a, p):
     import cubed
 
+    kw = {} if p.get("allow_irregular", True) else {"allow_irregular": False}
     if p.get("method", True):
-        return a[0].rechunk(tuple(p["chunks"]))
-    return cubed.rechunk(a[0], tuple(p["chunks"]))
+        return a[0].rechunk(tuple(p["chunks"]), **kw)
+    return cubed.rechunk(a[0], tuple(p["chunks"]), **kw)
 
 
 reg(Op("rechunk", 1, lambda a: a.ndim >= 1 and a.size > 0, _rechunk_params, _rechunk_cub, lambda v, p: v[0], "exact", ("chunk", "rechunk"), 3))
